@@ -522,7 +522,7 @@ def evaluate__round(self: XPathFunction, context: ta.ContextType = None) -> ta.O
         if not isinstance(arg, str):
             assert isinstance(arg, (int, float, decimal.Decimal))
             with decimal.localcontext() as ctx:
-                ctx.prec = len(number.as_tuple().digits) + 1
+                ctx.prec = max(number.adjusted() + 2, 1)
                 rounding = 'ROUND_HALF_UP' if number > 0 else 'ROUND_HALF_DOWN'
                 return type(arg)(number.quantize(decimal.Decimal('1'), rounding=rounding))
         elif isinstance(context, XPathSchemaContext):
